@@ -107,12 +107,12 @@ Proof. exact document_wellformed_closed. Qed.
 Print Assumptions C05_closed_text.
 
 (** the whole run, for every frequency algebra *)
-Theorem C05_wellformed_closed : forall fa c thr g ns shapes,
+Theorem C05_wellformed_closed_partial : forall fa c thr g ns shapes,
   run_shapes fa c thr g = inl (ns, shapes) -> C05_dom (z_of c ns) shapes = true ->
   refs_closed shapes -> NoDup (map sh_name shapes) ->
   exists text, run_shexc fa c thr g = inl text /\ wellformed_closed text = true.
 Proof. exact run_wellformed_closed. Qed.
-Print Assumptions C05_wellformed_closed.
+Print Assumptions C05_wellformed_closed_partial.
 
 (** ** non-vacuity and refutations (vm_compute on the model) *)
 Definition c05_cfg (user : nsdict) (shapes_ns : str) : rcfg :=
@@ -202,3 +202,11 @@ Lemma C05_local_name_assumption_needed :
 Proof.
   exists (fst c05_in4), (snd c05_in4), c05_text4. split; vm_compute; reflexivity.
 Qed.
+
+(** Known finding C05-F3 (rdflib-parsed input, outside the pipeline model):
+    the real output declares the empty prefix twice; the Spec predicate
+    rejects such a document on [prefixes_functional] *)
+Lemma C05_parsed_prefix_collision_rejected :
+  exists ts, lex (Str "PREFIX : <http://weso.es/shapes/>  PREFIX : <http://ex.org/>  :C { :p  @:D ; <http://t>  [:C] }  :D { <http://t>  [:D] }") = Some ts /\
+             parses ts = true /\ prefixes_functional ts = false.
+Proof. eexists. split; [vm_compute; reflexivity|]. split; vm_compute; reflexivity. Qed.
